@@ -37,10 +37,13 @@ def comp_ctxraise(which, k, nest, guardmode, kk, v):
     return {"td": td, "props": {"c08"}, "compare": False}
 
 
-def comp_stack(depth, limit, v):
+def comp_stack(depth, limit, v, side=0):
     t = fam.chain("leaf", 1, 0, v)
     for i in range(depth):
         t = TaskD("n%d" % i, Y(0, TASK(t)))
+    if side:
+        # a sibling whose batch item is already scheduled when the guard fires further down the other branch
+        t = TaskD("top", Y(4, TASK(t), TASK(fam.chain("side", 2, 0, v + 30))))
     old = [None]
 
     def setup():
@@ -79,9 +82,30 @@ def mk_hist_ctx(two=False):
 
 
 def mk_hist_stack():
-    def f(depth, limit, v):
-        comps = [comp_stack(conc(depth, 6), 1 + conc(limit, 6), v), canary(v + 50)]
-        return check_history(comps, sig=("hstack", conc(depth, 6), conc(limit, 6)))
+    def f(depth, limit, side, v):
+        can = canary(v + 50)
+        can["check_stale_after"] = True
+        comps = [comp_stack(conc(depth, 6), 1 + conc(limit, 6), v, conc(side, 2)), can]
+        return check_history(comps, sig=("hstack", conc(depth, 6), conc(limit, 6), conc(side, 2)))
+    return f
+
+
+def mk_elsewhere(props):
+    """tasks waited for somewhere else than where they were created"""
+    from harness.prog import WAITPRE, STASH, check_program
+    def f(variant, kp, ka, pos, p0, p1, ho, v):
+        var, kpv, kav, posv = conc(variant, 3), conc(kp, 2), conc(ka, 2), conc(pos, 3)
+        pre = {}
+        steps = [Y(0, ITEM(kav, v)), Y(0, ITEM(kav, v + 1))]
+        if var in (0, 2):
+            pre["p"] = fam.chain("P", 1, kpv, v + 40)
+            steps.insert(posv, WAITPRE("p"))
+        if var in (1, 2):
+            steps.insert(posv, STASH("s", fam.chain("St", 1, kpv, v + 60)))
+        A = TaskD("A", SEQ(*steps))
+        td = TaskD("root", Y(4, TASK(A), TASK(fam.chain("B", 2, 1 - kav, v + 10))))
+        return check_program(td, props, nkinds=2, prio=[p0, p1], hash_order=conc(ho, 2), precreate=pre,
+                             sig=("elsewhere", var, kpv, kav, posv))
     return f
 
 
@@ -98,10 +122,15 @@ def conds(tier):
                     [I("which", 0, 1), I("k", 0, 3), I("nest", 0, 2), I("gm", 0, 4), I("kk", 0, 1),
                      I("which2", 0, 0), I("k2", 0, 0), I("v")], pin=2, budget=200,
                     family="F-HIST [context whose k-th resume/pause raises, canary]", encodes=ctx.ENC_CTX))
-    out.append(Cond("hist_stack", mk_hist_stack(), [I("depth", 0, 5), I("limit", 0, 5), I("v")], pin=1,
+    out.append(Cond("elsewhere", mk_elsewhere({"c08", "c01"}),
+                    [I("variant", 0, 2), I("kp", 0, 1), I("ka", 0, 1), I("pos", 0, 2), I("p0"), I("p1"), I("ho", 0, 1),
+                     I("v")], pin=2, budget=100, family="tasks created at top level and waited for inside a task / "
+                    "created inside a task and waited for at top level", encodes=core.ENC_SCHED))
+    out.append(Cond("hist_stack", mk_hist_stack(), [I("depth", 0, 5), I("limit", 0, 5), I("side", 0, 1), I("v")], pin=1,
                     budget=100, family="F-HIST [MAX_TASK_STACK_SIZE RuntimeError, canary]", encodes=core.ENC_SCHED))
     out.append(Cond("tree", core.mk_tree(P, 3, 2, 2), core.tree_params(3, 2, 2), pin=3, budget=120,
                     family="F-TREE(3,2,2)", encodes=core.ENC_SCHED))
+    out.append(core.dagsync_cond("dagsync", P))
     if not q:
         out.append(Cond("hist_fault2", mk_hist_fault(True),
                         [I("s0", 8, 16), I("s1", 0, 16), I("g0", 0, 2), I("g1", 0, 2), I("t0", 8, 16), I("t1", 0, 7),
